@@ -1,0 +1,454 @@
+//go:build verif
+
+// Contracts for govc (see /verif/DESIGN.md). Comment-only file.
+
+package dbms
+
+//@ property C41
+
+// authz: the request being processed runs on an authenticated connection.
+// It is a ghost permission: nothing in a command handler can establish it, so
+// any direct use of a protected operation from a handler is an unprovable
+// precondition. Protected operations are reachable only through ss.sc.dbms,
+// where the DbmsUnauth wrapper refuses them.
+//@ ghost var authz bool
+
+// ---- protected package-level operations --------------------------------------
+//@ func Token() (r)
+//@   assumed
+//@   requires authz
+//@   modifies all
+//@ func kill(sid) (n)
+//@   assumed
+//@   requires authz
+//@   modifies all
+//@ func connections() (r)
+//@   assumed
+//@   requires authz
+//@   modifies all
+
+// ---- DbmsLocal: every IDbms method outside the allowed set needs the permission ----
+//@ func (d *DbmsLocal) Admin(admin, sv)
+//@   assumed
+//@   requires authz
+//@   modifies all
+//@ func (d *DbmsLocal) Check(full)
+//@   assumed
+//@   requires authz
+//@   modifies all
+//@ func (d *DbmsLocal) Connections()
+//@   assumed
+//@   requires authz
+//@   modifies all
+//@ func (d *DbmsLocal) Cursor(query, sv)
+//@   assumed
+//@   requires authz
+//@   modifies all
+//@ func (d *DbmsLocal) Cursors()
+//@   assumed
+//@   requires authz
+//@   modifies all
+//@ func (d *DbmsLocal) DisableTrigger(table)
+//@   assumed
+//@   requires authz
+//@   modifies all
+//@ func (d *DbmsLocal) Dump(table, to, publicKey)
+//@   assumed
+//@   requires authz
+//@   modifies all
+//@ func (d *DbmsLocal) EnableTrigger(table)
+//@   assumed
+//@   requires authz
+//@   modifies all
+//@ func (d *DbmsLocal) Exec(th, v)
+//@   assumed
+//@   requires authz
+//@   modifies all
+//@ func (d *DbmsLocal) Final()
+//@   assumed
+//@   requires authz
+//@   modifies all
+//@ func (d *DbmsLocal) Get(th, query, dir)
+//@   assumed
+//@   requires authz
+//@   modifies all
+//@ func (d *DbmsLocal) Info()
+//@   assumed
+//@   requires authz
+//@   modifies all
+//@ func (d *DbmsLocal) Kill(addr)
+//@   assumed
+//@   requires authz
+//@   modifies all
+//@ func (d *DbmsLocal) Load(table, from, privateKey, passphrase)
+//@   assumed
+//@   requires authz
+//@   modifies all
+//@ func (d *DbmsLocal) Log(s)
+//@   assumed
+//@   requires authz
+//@   modifies all
+//@ func (d *DbmsLocal) Run(th, s)
+//@   assumed
+//@   requires authz
+//@   modifies all
+//@ func (d *DbmsLocal) Schema(table)
+//@   assumed
+//@   requires authz
+//@   modifies all
+//@ func (d *DbmsLocal) Size()
+//@   assumed
+//@   requires authz
+//@   modifies all
+//@ func (d *DbmsLocal) Timestamp()
+//@   assumed
+//@   requires authz
+//@   modifies all
+//@ func (d *DbmsLocal) Token()
+//@   assumed
+//@   requires authz
+//@   modifies all
+//@ func (d *DbmsLocal) Transaction(update)
+//@   assumed
+//@   requires authz
+//@   modifies all
+//@ func (d *DbmsLocal) Transactions()
+//@   assumed
+//@   requires authz
+//@   modifies all
+
+// allowed without authentication (the property statement: authenticate, nonce,
+// session id, list and fetch library code)
+//@ func (d *DbmsLocal) Auth(th, s) (r)
+//@   assumed
+//@   modifies all
+//@ func (d *DbmsLocal) LibGet(name) (r)
+//@   assumed
+//@   modifies all
+//@ func (d *DbmsLocal) Libraries() (r)
+//@   assumed
+//@   modifies all
+//@ func (d *DbmsLocal) Nonce(th) (r)
+//@   assumed
+//@   modifies all
+//@ func (d *DbmsLocal) SessionId(th, id) (r)
+//@   assumed
+//@   modifies all
+
+// ---- the unauthorized wrapper: refused methods never return normally and touch nothing ----
+//@ func (du *DbmsUnauth) Admin(a, sv)
+//@   nosafety
+//@   ensures_panic
+//@ func (du *DbmsUnauth) Check(full)
+//@   nosafety
+//@   ensures_panic
+//@ func (du *DbmsUnauth) Connections()
+//@   nosafety
+//@   ensures_panic
+//@ func (du *DbmsUnauth) Cursor(q, sv)
+//@   nosafety
+//@   ensures_panic
+//@ func (du *DbmsUnauth) Cursors()
+//@   nosafety
+//@   ensures_panic
+//@ func (du *DbmsUnauth) DisableTrigger(t)
+//@   nosafety
+//@   ensures_panic
+//@ func (du *DbmsUnauth) Dump(t)
+//@   nosafety
+//@   ensures_panic
+//@ func (du *DbmsUnauth) EnableTrigger(t)
+//@   nosafety
+//@   ensures_panic
+//@ func (du *DbmsUnauth) Exec(th, v)
+//@   nosafety
+//@   ensures_panic
+//@ func (du *DbmsUnauth) Final()
+//@   nosafety
+//@   ensures_panic
+//@ func (du *DbmsUnauth) Get(th, q, dir)
+//@   nosafety
+//@   ensures_panic
+//@ func (du *DbmsUnauth) Info()
+//@   nosafety
+//@   ensures_panic
+//@ func (du *DbmsUnauth) Kill(s)
+//@   nosafety
+//@   ensures_panic
+//@ func (du *DbmsUnauth) Load(t)
+//@   nosafety
+//@   ensures_panic
+//@ func (du *DbmsUnauth) Log(s)
+//@   nosafety
+//@   ensures_panic
+//@ func (du *DbmsUnauth) Run(th, s)
+//@   nosafety
+//@   ensures_panic
+//@ func (du *DbmsUnauth) Schema(t)
+//@   nosafety
+//@   ensures_panic
+//@ func (du *DbmsUnauth) Size()
+//@   nosafety
+//@   ensures_panic
+//@ func (du *DbmsUnauth) Timestamp()
+//@   nosafety
+//@   ensures_panic
+//@ func (du *DbmsUnauth) Token()
+//@   nosafety
+//@   ensures_panic
+//@ func (du *DbmsUnauth) Transaction(u)
+//@   nosafety
+//@   ensures_panic
+//@ func (du *DbmsUnauth) Transactions()
+//@   nosafety
+//@   ensures_panic
+
+//@ func (du *DbmsUnauth) Auth(th, data)
+//@   nosafety
+//@   maypanic
+//@   modifies all
+//@ func (du *DbmsUnauth) LibGet(name)
+//@   nosafety
+//@   maypanic
+//@   modifies all
+//@ func (du *DbmsUnauth) Libraries()
+//@   nosafety
+//@   maypanic
+//@   modifies all
+//@ func (du *DbmsUnauth) Nonce(th)
+//@   nosafety
+//@   maypanic
+//@   modifies all
+//@ func (du *DbmsUnauth) SessionId(th, id)
+//@   nosafety
+//@   maypanic
+//@   modifies all
+
+// ---- command handlers and session helpers: no permission can be assumed ----------------
+//@ func cmdAbort(ss)
+//@   nosafety
+//@   maypanic
+//@   modifies all
+//@ func cmdAction(ss)
+//@   nosafety
+//@   maypanic
+//@   modifies all
+//@ func cmdAdmin(ss)
+//@   nosafety
+//@   maypanic
+//@   modifies all
+//@ func cmdAsof(ss)
+//@   nosafety
+//@   maypanic
+//@   modifies all
+//@ func cmdCheck(ss)
+//@   nosafety
+//@   maypanic
+//@   modifies all
+//@ func cmdClose(ss)
+//@   nosafety
+//@   maypanic
+//@   modifies all
+//@ func cmdCommit(ss)
+//@   nosafety
+//@   maypanic
+//@   modifies all
+//@ func cmdConnections(ss)
+//@   nosafety
+//@   maypanic
+//@   modifies all
+//@ func cmdCursor(ss)
+//@   nosafety
+//@   maypanic
+//@   modifies all
+//@ func cmdCursors(ss)
+//@   nosafety
+//@   maypanic
+//@   modifies all
+//@ func cmdEndSession(ss)
+//@   nosafety
+//@   maypanic
+//@   modifies all
+//@ func cmdErase(ss)
+//@   nosafety
+//@   maypanic
+//@   modifies all
+//@ func cmdExec(ss)
+//@   nosafety
+//@   maypanic
+//@   modifies all
+//@ func cmdFinal(ss)
+//@   nosafety
+//@   maypanic
+//@   modifies all
+//@ func cmdGet(ss)
+//@   nosafety
+//@   maypanic
+//@   modifies all
+//@ func cmdGetOne(ss)
+//@   nosafety
+//@   maypanic
+//@   modifies all
+//@ func cmdHeader(ss)
+//@   nosafety
+//@   maypanic
+//@   modifies all
+//@ func cmdInfo(ss)
+//@   nosafety
+//@   maypanic
+//@   modifies all
+//@ func cmdKeys(ss)
+//@   nosafety
+//@   maypanic
+//@   modifies all
+//@ func cmdKill(ss)
+//@   nosafety
+//@   maypanic
+//@   modifies all
+//@ func cmdLibGet(ss)
+//@   nosafety
+//@   maypanic
+//@   modifies all
+//@ func cmdLibraries(ss)
+//@   nosafety
+//@   maypanic
+//@   modifies all
+//@ func cmdLog(ss)
+//@   nosafety
+//@   maypanic
+//@   modifies all
+//@ func cmdNonce(ss)
+//@   nosafety
+//@   maypanic
+//@   modifies all
+//@ func cmdOrder(ss)
+//@   nosafety
+//@   maypanic
+//@   modifies all
+//@ func cmdOutput(ss)
+//@   nosafety
+//@   maypanic
+//@   modifies all
+//@ func cmdQuery(ss)
+//@   nosafety
+//@   maypanic
+//@   modifies all
+//@ func cmdReadCount(ss)
+//@   nosafety
+//@   maypanic
+//@   modifies all
+//@ func cmdRewind(ss)
+//@   nosafety
+//@   maypanic
+//@   modifies all
+//@ func cmdRun(ss)
+//@   nosafety
+//@   maypanic
+//@   modifies all
+//@ func cmdSessionId(ss)
+//@   nosafety
+//@   maypanic
+//@   modifies all
+//@ func cmdSize(ss)
+//@   nosafety
+//@   maypanic
+//@   modifies all
+//@ func cmdStrategy(ss)
+//@   nosafety
+//@   maypanic
+//@   modifies all
+//@ func cmdTimestamp(ss)
+//@   nosafety
+//@   maypanic
+//@   modifies all
+//@ func cmdToken(ss)
+//@   nosafety
+//@   maypanic
+//@   modifies all
+//@ func cmdTransaction(ss)
+//@   nosafety
+//@   maypanic
+//@   modifies all
+//@ func cmdTransactions(ss)
+//@   nosafety
+//@   maypanic
+//@   modifies all
+//@ func cmdUpdate(ss)
+//@   nosafety
+//@   maypanic
+//@   modifies all
+//@ func cmdWriteCount(ss)
+//@   nosafety
+//@   maypanic
+//@   modifies all
+//@ func (ss *serverSession) error(err)
+//@   nosafety
+//@   maypanic
+//@   modifies all
+//@ func (ss *serverSession) close()
+//@   nosafety
+//@   maypanic
+//@   modifies all
+//@ func (ss *serverSession) abort()
+//@   nosafety
+//@   maypanic
+//@   modifies all
+//@ func (ss *serverSession) deleteTran(tn)
+//@   nosafety
+//@   maypanic
+//@   modifies all
+//@ func (ss *serverSession) getTran()
+//@   nosafety
+//@   maypanic
+//@   modifies all
+//@ func (ss *serverSession) tran(tn)
+//@   nosafety
+//@   maypanic
+//@   modifies all
+//@ func (ss *serverSession) getQorTC()
+//@   nosafety
+//@   maypanic
+//@   modifies all
+//@ func (ss *serverSession) getDir()
+//@   nosafety
+//@   maypanic
+//@   modifies all
+//@ func (ss *serverSession) rowResult(tbl, hdr, sendHdr, row)
+//@   nosafety
+//@   maypanic
+//@   modifies all
+//@ func (ss *serverSession) getQorC()
+//@   nosafety
+//@   maypanic
+//@   modifies all
+//@ func (ss *serverSession) getQuery()
+//@   nosafety
+//@   maypanic
+//@   modifies all
+//@ func (ss *serverSession) getCursor()
+//@   nosafety
+//@   maypanic
+//@   modifies all
+
+// ---- authentication ---------------------------------------------------------------------
+//@ func AuthUser(th, s, nonce) (r)
+//@   nosafety
+//@   trustframe
+//@   ensures! empty_nonce: len(nonce) == 0 ==> !r
+//@ func AuthToken(s) (r)
+//@   assumed
+//@ func (ss *serverSession) auth(s) (r)
+//@   nosafety
+//@   maypanic
+//@   requires ss != nil && ss.sc != nil
+//@   modifies ss.sc.nonce, ss.sc.nonceOld
+//@   ensures! nonce_single_use: len(ss.sc.nonce) == 0
+//@   ensures! dbms_unchanged: ss.sc.dbms == old(ss.sc.dbms)
+// the connection is unwrapped only when authentication succeeded
+//@ func cmdAuth(ss)
+//@   nosafety
+//@   maypanic
+//@   requires ss != nil && ss.sc != nil
+//@   modifies all
+//@   ghost ok bool = result
+//@   ensures! stays_wrapped: !ok ==> ss.sc.dbms == old(ss.sc.dbms)
